@@ -775,6 +775,11 @@ impl CoreApi for Enforcer {
         }
         self.model.clear_policy();
 
+        // the grouping rules are gone: the role graph must not keep their links
+        if self.auto_build_role_links {
+            self.build_role_links()?;
+        }
+
         #[cfg(any(feature = "logging", feature = "watcher"))]
         self.emit(Event::PolicyChange, EventData::ClearPolicy);
 
